@@ -25,11 +25,14 @@ pub fn main(args: &[String]) {
                 let mixed: String = text.chars().enumerate().map(|(i, c)| if i % 2 == 0 { c.to_ascii_lowercase() } else { c.to_ascii_uppercase() }).collect();
                 let generic = format!("{}{}", $prefix, v);
                 let generic_l = generic.to_lowercase();
+                // the keyword in mixed case ("Type12", "cLASS3"): two of the 32 spellings, chosen by the value
+                let mixed_kw = |k: usize| -> String { generic.chars().enumerate().map(|(i, c)| if (i + k) % 2 == 0 { c.to_ascii_lowercase() } else { c }).collect() };
+                let (generic_m1, generic_m2) = (mixed_kw(0), { let mut g = generic_l.clone(); if let Some(f) = g.get_mut(0..1) { f.make_ascii_uppercase(); } g });
                 // texts that must not parse: trailing junk, overflow, empty number
                 let bads = [format!("{}x", text), format!("{}65536", $prefix), format!("{}", $prefix), format!("{}-1", $prefix), format!(" {}", text)];
                 let bad: Vec<i64> = bads.iter().map(|s| p(s)).collect();
                 out.emit(json!({"ev": "Code", "kind": $name, "v": v, "text": b(&text), "back": p(&text), "lower": p(&lower), "upper": p(&upper), "mixed": p(&mixed),
-                    "generic": p(&generic), "generic_l": p(&generic_l), "bad": bad}));
+                    "generic": p(&generic), "generic_l": p(&generic_l), "generic_m": [p(&generic_m1), p(&generic_m2)], "bad": bad}));
             }
         };
     }
